@@ -48,6 +48,11 @@ class Child:
             self.die(sig)
 
     def env(self, e):
+        if e[0] == 'reap':
+            # somebody else collects the wait status (the kernel when SIGCHLD is ignored, another waitpid in the application)
+            if not self.alive:
+                self.reaped = True
+            return
         if not self.alive:
             return
         self.die(e[1] * 256 if e[0] == 'exit' else e[1])
@@ -176,7 +181,7 @@ def run_ops(pexpect, ign_hup, ign_int, stopped, ops):
     return out, w
 
 
-def gen_ops(rng, n):
+def gen_ops(rng, n, foreign_reaper=False):
     ops = []
     for _ in range(n):
         x = rng.random()
@@ -200,6 +205,14 @@ def gen_ops(rng, n):
             ops.append(('env', ('exit', rng.choice([0, 1, 2, 5, 127, 255]))))
         else:
             ops.append(('env', ('sig', rng.choice([1, 2, 9, 11, 15, 35, 64]))))
+    if foreign_reaper:
+        # a world where somebody else may reap the child: right after some of its deaths, or at any other moment
+        out = []
+        for o in ops:
+            out.append(o)
+            if (o[0] == 'env' and rng.random() < 0.6) or rng.random() < 0.1:
+                out.append(('env', ('reap',)))
+        ops = out
     if rng.random() < 0.3:
         ops.append(('drop',))          # the end of the object's life
     return ops
@@ -223,5 +236,5 @@ def coq_ops(ops):
         elif o[0] == 'drop':
             out.append('ODrop')
         else:
-            out.append('(OEnv (%s %s))' % ('EExit' if o[1][0] == 'exit' else 'ESignalled', cZ(o[1][1])))
+            out.append('(OEnv EReapedElsewhere)' if o[1][0] == 'reap' else '(OEnv (%s %s))' % ('EExit' if o[1][0] == 'exit' else 'ESignalled', cZ(o[1][1])))
     return clist(out)
